@@ -21,7 +21,7 @@ substitute base) and match_to of the real class is run with and without the pref
 differ is reported (and replayed by c07_prefilter.replay).  A candidate that cannot be realised makes the job
 inconclusive, never a violation.
 
-Outside: wildcards (adapter or read), the 'force anywhere' variants, error budgets above MAX_E.
+Outside: wildcards (adapter or read), the 'force anywhere' variant of the rightmost 5' adapter, error budgets above MAX_E.
 """
 import random
 import time
@@ -31,7 +31,7 @@ import z3
 from harness import align_common as AC
 
 SYMS = [chr(c) for c in range(33, 97) if chr(c) not in "UI"]       # 62 distinct symbols that survive upper()/U->T/I->N
-KINDS = ["back", "front", "rightmost_front", "nonint_back", "nonint_front", "prefix", "suffix", "anywhere"]
+KINDS = ["back", "front", "rightmost_front", "nonint_back", "nonint_front", "prefix", "suffix", "anywhere", "back_fa", "front_fa"]
 RATES_QUICK = [0.1, 0.15, 0.2, 0.25, 0.34]
 RATES_THOROUGH = [0.05, 0.08, 0.1, 0.12, 0.15, 0.18, 0.2, 0.25, 0.3, 0.34, 0.4]
 MAX_E = 6
@@ -79,7 +79,7 @@ def real_table(kind, m, cfg):
     # AnywhereAdapter.match_to consults the prefilter only for reads that its own guard lets through: take the guard from
     # the real method (it looks at the length only)
     consulted = None
-    if kind == "anywhere":
+    if kind in ("anywhere", "back_fa", "front_fa"):
         consulted = [not ad._is_shorter_than_adapter("A" * n) for n in range(0, 3 * m + 3 * int(cfg["rate"] * m) + 5)]
     tab = rec["table"]
     # RightmostFrontAdapter builds its table for the reversed adapter and asks it about the reversed read
@@ -111,7 +111,7 @@ def _placement(kind, m, a0, a1, r0, r1, n):
         return z3.And(a0 == 0, a1 == m, r0 == 0)
     if kind == "suffix":
         return z3.And(a0 == 0, a1 == m, r1 == n)
-    if kind == "anywhere":
+    if kind in ("anywhere", "back_fa", "front_fa"):
         return z3.And(z3.Or(a0 == 0, r0 == 0), z3.Or(a1 == m, r1 == n))
     raise ValueError(kind)
 
